@@ -47,10 +47,16 @@ def tmpdir():
     return _D
 
 
+_PAT = {}
+
+
 def fbytes(case):
     f = case['file']
     if isinstance(f, dict):
-        return bytes((i * f['mul'] + 3) % 256 for i in range(f['len']))
+        k = (f['len'], f['mul'])
+        if k not in _PAT:
+            _PAT[k] = bytes((i * f['mul'] + 3) % 256 for i in range(f['len']))
+        return _PAT[k]
     return bytes(f)
 
 
